@@ -26,6 +26,15 @@
 (*              every configured list is read again                        *)
 (*   Remove(l)  POST /control/filtering/remove_url                         *)
 (*                                                                         *)
+(* Two configurations use this one text.  SafePath.mc.cfg (Mode = "mc")    *)
+(* explores ALL histories of these steps over a small set of locations     *)
+(* (the state graph is finite and explored completely) and checks the      *)
+(* invariants below.  SafePath.gen.cfg (Mode = "gen") takes, for every     *)
+(* pattern list and every location of a much larger set, the single step   *)
+(* Sweep, which evaluates the very operators the actions use (AddOpens,    *)
+(* SetURLOpens, InjectOpens, RefreshOpens) and prints them as one vector   *)
+(* for the Go harness to replay through all three entry points.            *)
+(*                                                                         *)
 (* The file tree, the working directory, the globs and the locations are   *)
 (* small finite sets chosen to contain every distinction the statement     *)
 (* draws (dot-dot, dot, doubled and trailing separators, relative forms,   *)
@@ -124,7 +133,7 @@ MCLocs ==
       \cup {URL("file", FALSE, <<"s", "a.txt">>), URL("file", TRUE, <<"s", "..", "o", "a.txt">>)}
 
 Locs     == IF Mode = "gen" THEN GenLocs ELSE MCLocs
-MaxKnown == IF Mode = "gen" THEN 1 ELSE 2
+MaxKnown == 2      \* bound on the list table in "mc" mode
 
 NoLoc == [scheme |-> "none", abs |-> FALSE, segs |-> <<"-">>]
 
